@@ -65,6 +65,10 @@ def c05(out):
         exe = build_driver("drv_ctr", ["drv_ctr.c"] + HIST, vname)
         nstruct = min(cases // 2, 3 * (3 * 128 + 18) * 30)
         run_sharded(out, exe, ["--prop", "C05", "--mode", "model", "--structured", str(nstruct)], vname, cases)
+        if vname in ("prod", "clang", "prod+W32+UNAL0"):
+            # long-lived objects: 70 000 calls each with hundreds of rekeys and a few calls of 64 KiB .. 1 MiB
+            mcases = (7 if out.tier == "quick" else 42) if vname == "prod" else 7
+            run_sharded(out, exe, ["--prop", "C05", "--mode", "marathon", "--marathon-ops", "70000" if vname == "prod" else "20000", "--case-timeout", "600"], vname, mcases, shards=7, label="marathon")
     out.assumptions += ["reference models (self-tested on the ten published vectors each run) are the specification",
                         "back ends not available on this CPU/build cannot be exercised",
                         "behaviour after a mid-stream key/tweak change without a counter set is outside this property (judged by C06)"]
@@ -161,6 +165,9 @@ def c07(out):
     for vname, cases in v:
         exe = build_driver("drv_par", ["drv_par.c"] + HIST, vname)
         run_sharded(out, exe, ["--prop", "C07", "--mode", "model", "--structured", str(3 * 28 * 2 * 2)], vname, cases)
+        if vname in ("prod", "clang"):
+            # single calls of 4096 .. 131073 blocks (64 KiB .. 2 MiB): every cipher x back end x direction x in-place
+            run_sharded(out, exe, ["--prop", "C07", "--mode", "big", "--case-timeout", "600"], vname, 72 if out.tier == "quick" else 288, shards=12, label="big")
     out.assumptions += ["single-block functions are tied to the specification by C01/C02"]
 
 
